@@ -142,3 +142,140 @@ def t_valuation_liab(world):
 _t_val = tasks
 def tasks(tier):
     return _t_val(tier) + [('valuation_asset', t_valuation_asset), ('valuation_liab', t_valuation_liab)]
+
+
+# ---------------------------------------------------------------- C07.b: the bankruptcy handler (insurance first, remainder socialized, exactly the bad debt repaid)
+PERMISSIONLESS_BIT = 4          # PERMISSIONLESS_BAD_DEBT_SETTLEMENT_FLAG = 1 << 2 (checked against the type crate's MIR below)
+HB = 'LendingPoolHandleBankruptcy'
+
+
+def t_bankruptcy_handler(world):
+    from specs.handlers import run_handler, KERNELS, short, TOKEN_DEREF
+    from specs.flows import SUMMARIES, evs, cellname
+    from specs.C01 import CACHE_SUMMARIES
+    from specs.C12 import find_accounts
+    kernels = [k for k in KERNELS if k not in (r'BankAccountWrapper', r'update_bank_cache$', r'update_cache_price$')]
+    eng, f, args, res = run_handler(world, r'handle_bankruptcy::lending_pool_handle_bankruptcy$', kernels=kernels, summaries=list(SUMMARIES) + CACHE_SUMMARIES + TOKEN_DEREF)
+    ob = Ob('C07.b', 'handle_bankruptcy: authorised signer unless the bank is permissionless; bankruptcy test passed first; the position of THIS bank owes > 0.0001; '
+            'covered = min(bad debt, insurance available), ceil(covered) (or its pre-fee image) moves insurance vault -> liquidity vault; socialize_loss(bad debt - covered); repay(bad debt) on the same bank; '
+            'account disabled; bank killed iff socialize_loss says so',
+            [f.name], 'handler mode: kernels opaque, wrapper ops summarised, cache refreshers summarised by frame lemma C01.c; 16 slots unrolled; every accepting path'); ob.paths = len(res)
+    pf = eng.const_val(None, 'marginfi_type_crate::constants::PERMISSIONLESS_BAD_DEBT_SETTLEMENT_FLAG')
+    if not isinstance(pf, IntV) or not z3.is_int_value(z3.simplify(pf.e)) or z3.simplify(pf.e).as_long() != PERMISSIONLESS_BIT:
+        ob.fail('PERMISSIONLESS_BAD_DEBT_SETTLEMENT_FLAG is not 1<<2 in the type crate MIR'); return [ob]
+    zthr = z3.simplify(eng.const_val(None, 'marginfi_type_crate::constants::ZERO_AMOUNT_THRESHOLD').e).as_long()
+    names = STRUCTS[HB]
+    BAL = STRUCTS['Balance']
+    n_ok = 0
+    tr = lambda E: {'trace': [x[1] if x[0] != 'call' else short(x[1]) for x in E][:70]}
+    for r, okc in ok_paths(res):
+        E = evs(r)
+        if ob.witness(eng, r, [okc]) is False: continue
+        n_ok += 1
+        def one(pat, what):
+            c = [(i, e) for i, e in enumerate(E) if e[0] == 'call' and re.search(pat, e[1])]
+            if len(c) != 1:
+                ob.structural(f'{len(c)} calls of {what} on an accepting path (exactly one required)', 'missing:' + what, tr(E)); return None
+            return c[0]
+        bk = one(r'check_account_bankrupt$', 'check_account_bankrupt'); acc = one(r'accrue_interest$', 'accrue_interest')
+        gl = one(r'get_liability_amount$', 'get_liability_amount'); T = one(r'withdraw_spl_transfer$', 'withdraw_spl_transfer')
+        soc = one(r'socialize_loss$', 'socialize_loss'); sf = one(r'::set_flag$', 'set_flag')
+        ops = [(i, e) for i, e in enumerate(E) if e[0] == 'wrap_op']
+        finds = [(i, e) for i, e in enumerate(E) if e[0] == 'wrap_find']
+        if None in (bk, acc, gl, T, soc, sf): continue
+        if [e[1] for _, e in ops] != ['repay'] or len(finds) != 1:
+            ob.structural(f'balance operations on an accepting path are {[e[1] for _, e in ops]} (exactly one repay required)', 'ops', tr(E)); continue
+        rp = ops[0]
+        # order: bankruptcy test -> accrual -> debt read -> insurance transfer -> socialization -> repayment
+        order = [bk[0], acc[0], gl[0], T[0], soc[0], finds[0][0], rp[0]]
+        ob.queries += 1
+        if order == sorted(order): ob.unsat += 1
+        else: ob.sat += 1; ob.cex.append({'ob': ob.oid, 'label': 'order of bankruptcy test / accrual / debt read / insurance transfer / socialization / repayment', 'role': 'order', 'model': tr(E), 'replay': None})
+        ob.prove(eng, r, [okc], z3.And([zint(x[1][3].disc) == 0 for x in (bk, acc, gl, T, soc)] + [rp[1][5] == 0]), 'every kernel error is propagated', role='errors')
+        # the same bank everywhere
+        bank = cellname(acc[1][2][0])
+        ob.queries += 1
+        same = {cellname(gl[1][2][0]), cellname(soc[1][2][0]), cellname(T[1][2][0]), rp[1][2], finds[0][1][2]}
+        if same == {bank}: ob.unsat += 1
+        else: ob.sat += 1; ob.cex.append({'ob': ob.oid, 'label': f'kernels act on different bank objects {sorted(map(str, same))} vs accrued {bank}', 'role': 'bank-identity', 'model': tr(E), 'replay': None})
+        # the debt read is the liability of the ACTIVE slot of THIS bank
+        sh = gl[1][2][1]
+        m = re.match(r'^(.*)\[(\d+)\]\.(\d+)$', str(sh.e)) if isinstance(sh, IntV) else None
+        if not m or int(m.group(3)) != BAL.index('liability_shares'):
+            ob.structural(f'bad debt is not read from a position\'s liability_shares (argument {str(getattr(sh, "e", sh))[:80]})', 'debt-source', tr(E)); continue
+        slot = f'{m.group(1)}[{m.group(2)}]'
+        active = z3.Int(f'{slot}.{BAL.index("active")}'); bpk = z3.Int(f'{slot}.{BAL.index("bank_pk")}')
+        bkey = acc[1][2][3].e if isinstance(acc[1][2][3], IntV) else None
+        bank_key = z3.Int(bank.replace('.acct', '.key'))
+        ob.prove(eng, r, [okc], z3.And(active != 0, bpk == bank_key), 'the debt is read from an active position whose bank is the bank being settled', role='debt-source')
+        bd = ev(gl[1][3].payload[0][0])
+        ob.prove(eng, r, [okc], bd > zthr, 'bad debt > 0.0001 (a position that owes nothing cannot be written off)', role='no-debt')
+        # insurance first
+        t_amt = T[1][2][1].e; s_amt = soc[1][2][1].e
+        vsyms = [n for n in free_consts(z3.And(r['pc'] + [t_amt >= 0, s_amt >= 0])) if n.startswith('tok(') and n.endswith('.2')]
+        if len(vsyms) != 1: ob.fail(f'token-account amounts read on an accepting path: {vsyms} (exactly one expected)'); continue
+        mm = re.search(r'a0\.1\*\.(\d+)', vsyms[0])
+        which = names[int(mm.group(1))] if mm and int(mm.group(1)) < len(names) else vsyms[0]
+        ob.queries += 1
+        if which == 'insurance_vault': ob.unsat += 1
+        else: ob.sat += 1; ob.cex.append({'ob': ob.oid, 'label': f'the insurance available is read from `{which}` instead of the insurance vault', 'role': 'insurance-source', 'model': {}, 'replay': None}); continue
+        vault = z3.Int(vsyms[0])
+        post = [(e, c) for e, c in events_with_cond(r['events']) if e[0] == 'call' and re.search(r'calculate_post_fee_spl_deposit_amount$', e[1])]
+        pre = [(e, c) for e, c in events_with_cond(r['events']) if e[0] == 'call' and re.search(r'calculate_pre_fee_spl_deposit_amount$', e[1])]
+        mn = lambda a, b: z3.If(a <= b, a, b)
+        ceilw = lambda x: -((-x) / W)
+        def shape(avail, amount_ok):
+            cov = mn(bd, avail)
+            return z3.And(s_amt == z3.If(bd - cov >= 0, bd - cov, 0), amount_ok(ceilw(cov)))
+        msyms = [n for n in free_consts(z3.And(r['pc'] + [t_amt >= 0, s_amt >= 0])) if re.search(r'maybe_take_bank_mint#\d+\.ok\.disc$', n)]
+        if len(msyms) > 1: ob.fail(f'several mint options {msyms}'); continue
+        has_mint = z3.Int(msyms[0]) == 1 if msyms else z3.BoolVal(False)      # Token-2022 mint account supplied (transfer-fee aware path)
+        alts = [z3.And(z3.Not(has_mint), shape(vault * W, lambda c: t_amt == c))]
+        for (pe, pc_) in post:
+            for (qe, qc) in pre:
+                alts.append(z3.And(has_mint, pc_, qc, pe[2][1].e == vault, pe[2][2].e == z3.Int('clock.epoch'), zint(pe[3].disc) == 0, qe[2][2].e == z3.Int('clock.epoch'), zint(qe[3].disc) == 0,
+                                   shape(ev(pe[3].payload[0][0]) * W, lambda c: z3.And(qe[2][1].e == c, t_amt == ev(qe[3].payload[0][0])))))
+        dom = [bd < (1 << 64) * W, vault >= 0]
+        ob.prove(eng, r, [okc] + dom, z3.Or(alts), 'covered = min(bad debt, insurance available); socialized = bad debt - covered; tokens moved = ceil(covered) (or the pre-fee amount of exactly that, at the current epoch)', role='insurance-first')
+        ob.prove(eng, r, [okc] + dom, z3.And(s_amt >= 0, s_amt <= bd), 'socialized loss within [0, bad debt]', role='socialized-range')
+        ob.prove(eng, r, [okc], rp[1][3].e == bd, 'exactly the bad debt is repaid (written off)', role='repay-amount')
+        # route insurance vault -> liquidity vault
+        def field_of(info):
+            v = eng.deref_val(info); mm = re.search(r'a0\.1\*\.(\d+)', getattr(v, 'name', '') or '')
+            return names[int(mm.group(1))] if mm and int(mm.group(1)) < len(names) else getattr(v, 'name', '?')
+        route = (field_of(T[1][2][2]), field_of(T[1][2][3]))
+        ob.queries += 1
+        if route == ('insurance_vault', 'liquidity_vault'): ob.unsat += 1
+        else: ob.sat += 1; ob.cex.append({'ob': ob.oid, 'label': f'insurance transfer route is {route}', 'role': 'route', 'model': {}, 'replay': None})
+        # authorisation
+        accts = {}
+        for root in r['roots']: accts.update(find_accounts(eng, root))
+        grp = [c for c, sv in accts.items() if 'MarginfiGroup' in sv.ty]
+        flags0 = fsym(bank, 'Bank', 'flags')
+        signer = z3.Int(f'a0.1*.{names.index("signer")}.key')
+        if grp:
+            adm = fsym(grp[0], 'MarginfiGroup', 'admin'); radm = fsym(grp[0], 'MarginfiGroup', 'risk_admin')
+            ob.prove(eng, r, [okc, (flags0 / PERMISSIONLESS_BIT) % 2 == 0], z3.Or(signer == adm, signer == radm), 'without the permissionless flag only the group admin or the risk admin can settle', role='authorisation')
+        else:
+            ob.prove(eng, r, [okc], (flags0 / PERMISSIONLESS_BIT) % 2 == 1, 'group never loaded => the bank must be permissionless', role='authorisation')
+        # account disabled
+        fl = sf[1][2]
+        ob.prove(eng, r, [okc], z3.And(fl[1].e == 1, ev(fl[2]) if isinstance(fl[2], BoolV) else z3.BoolVal(False)), 'ACCOUNT_DISABLED is set on the bankrupt account', role='disabled')
+        # killed iff socialize_loss says so
+        kill = ev(soc[1][3].payload[0][0])
+        bobj = accts.get(bank)
+        if bobj is None: ob.fail('bank object not found'); continue
+        st1 = ev(fget(eng, bobj, 'Bank', 'config.operational_state'))
+        suffix = str(fsym('X', 'Bank', 'config.operational_state'))[1:]
+        prev = [n for n in free_consts(st1) if n.endswith(suffix)]
+        ob.prove(eng, r, [okc, kill], st1 == KILLED, 'a wiped-out bank is marked KilledByBankruptcy', role='kill')
+        if len(prev) == 1: ob.prove(eng, r, [okc, z3.Not(kill)], st1 == z3.Int(prev[0]), 'the operational state is untouched when the bank is not wiped out', role='kill-only-if')
+        else: ob.prove(eng, r, [okc, z3.Not(kill)], st1 != KILLED if not prev else z3.BoolVal(False), 'the operational state is untouched when the bank is not wiped out', role='kill-only-if')
+    ob.notes.append(f'{n_ok} accepting paths')
+    ob.need_witness()
+    return [ob]
+
+
+_t_bh = tasks
+def tasks(tier):
+    return _t_bh(tier) + [('bankruptcy_handler', t_bankruptcy_handler)]
